@@ -415,11 +415,21 @@ func runTx(c txCase) *vh.Failure {
 				size = o.N
 				sizeChanged = true
 			case "write":
-				err = q.WriteBytes(o.B)
+				// the caller's buffer is the caller's: it is reused (here: overwritten) as soon
+				// as the call is back, as io.Writer permits
+				buf := append([]byte{}, o.B...)
+				err = q.WriteBytes(buf)
+				for j := range buf {
+					buf[j] = 0xEE
+				}
 				write(o.B)
 			case "iowrite":
 				var m int
-				m, err = q.Write(o.B)
+				buf := append([]byte{}, o.B...)
+				m, err = q.Write(buf)
+				for j := range buf {
+					buf[j] = 0xEE
+				}
 				if err == nil && m != len(o.B) {
 					return fail("C15/write-count", "Write returned %d for %d bytes", m, len(o.B))
 				}
